@@ -1,8 +1,207 @@
-//! C05 — stub, to be written.
+//! C05: size-limited and dry-run operators agree with the unrestricted operator; cmp_implies.
+//!
+//! Case kinds (inputs => observed):
+//!   C05.lim  <table9> <conn> <L> <R> <fl> <fr> <fo> <limit> => <limited> <unrestricted>
+//!   C05.blim <table9> <conn> <L> <R> <limit>                => <limited> <unrestricted>      (binary_op_with_limit / binary_op)
+//!   C05.dry  <table9> <conn> <L> <R> <fl> <fr> <fo> <limit> => <dry> <dry-unlimited> <unrestricted>
+//!   C05.bdry <table9> <conn> <L> <R> <limit>                => <dry> <dry-unlimited> <unrestricted>  (check_binary_op)
+//!   C05.cmp  <A> <B>                                        => less|equal|greater|none|panic
+//! `limited`: `none`, a Bdd, or `panic`; `dry`: `none`, `<flag>,<count>` or `panic`; the unlimited dry run
+//! uses `usize::MAX` as the limit.
 #[path = "../common.rs"]
 mod common;
 use common::*;
+use biodivine_lib_bdd::*;
+use std::cmp::Ordering;
 
-pub fn run(key: &str, _a: &[String], _out: &mut Out) { panic!("unknown key {}", key) }
-pub fn gen(_tier: Tier, _rng: &mut Rng64, _out: &mut Out) {}
+fn s(x: &str) -> String { x.to_string() }
+fn parse_flip(x: &str) -> Option<usize> { if x == "-" { None } else { Some(x.parse().unwrap()) } }
+fn flip_var(f: Option<usize>) -> Option<BddVariable> { f.map(BddVariable::from_index) }
+
+fn fmt_lim(x: &Option<Option<Bdd>>) -> String {
+    match x { None => s("panic"), Some(None) => s("none"), Some(Some(b)) => fmt_bdd(b) }
+}
+fn fmt_dry(x: &Option<Option<(bool, usize)>>) -> String {
+    match x { None => s("panic"), Some(None) => s("none"), Some(Some((f, c))) => format!("{},{}", if *f { 1 } else { 0 }, c) }
+}
+
+pub fn run(key: &str, a: &[String], out: &mut Out) {
+    match key {
+        "C05.lim" => {
+            let (l, r) = (Bdd::from_string(&a[2]), Bdd::from_string(&a[3]));
+            let (fl, fr, fo) = (parse_flip(&a[4]), parse_flip(&a[5]), parse_flip(&a[6]));
+            let limit: usize = a[7].parse().unwrap();
+            let lim = catch(|| Bdd::fused_binary_flip_op_with_limit(limit, (&l, flip_var(fl)), (&r, flip_var(fr)), flip_var(fo), table_fn(&a[0])));
+            let unres = catch(|| Bdd::fused_binary_flip_op((&l, flip_var(fl)), (&r, flip_var(fr)), flip_var(fo), table_fn(&a[0])));
+            out.case(key, a, &[fmt_lim(&lim), fmt_res_bdd(&unres)]);
+        }
+        "C05.blim" => {
+            let (l, r) = (Bdd::from_string(&a[2]), Bdd::from_string(&a[3]));
+            let limit: usize = a[4].parse().unwrap();
+            let lim = catch(|| Bdd::binary_op_with_limit(limit, &l, &r, table_fn(&a[0])));
+            let unres = catch(|| Bdd::binary_op(&l, &r, table_fn(&a[0])));
+            out.case(key, a, &[fmt_lim(&lim), fmt_res_bdd(&unres)]);
+        }
+        "C05.dry" => {
+            let (l, r) = (Bdd::from_string(&a[2]), Bdd::from_string(&a[3]));
+            let (fl, fr, fo) = (parse_flip(&a[4]), parse_flip(&a[5]), parse_flip(&a[6]));
+            let limit: usize = a[7].parse().unwrap();
+            let dry = catch(|| Bdd::check_fused_binary_flip_op(limit, (&l, flip_var(fl)), (&r, flip_var(fr)), flip_var(fo), table_fn(&a[0])));
+            let full = catch(|| Bdd::check_fused_binary_flip_op(usize::MAX, (&l, flip_var(fl)), (&r, flip_var(fr)), flip_var(fo), table_fn(&a[0])));
+            let unres = catch(|| Bdd::fused_binary_flip_op((&l, flip_var(fl)), (&r, flip_var(fr)), flip_var(fo), table_fn(&a[0])));
+            out.case(key, a, &[fmt_dry(&dry), fmt_dry(&full), fmt_res_bdd(&unres)]);
+        }
+        "C05.bdry" => {
+            let (l, r) = (Bdd::from_string(&a[2]), Bdd::from_string(&a[3]));
+            let limit: usize = a[4].parse().unwrap();
+            let dry = catch(|| Bdd::check_binary_op(limit, &l, &r, table_fn(&a[0])));
+            let full = catch(|| Bdd::check_binary_op(usize::MAX, &l, &r, table_fn(&a[0])));
+            let unres = catch(|| Bdd::binary_op(&l, &r, table_fn(&a[0])));
+            out.case(key, a, &[fmt_dry(&dry), fmt_dry(&full), fmt_res_bdd(&unres)]);
+        }
+        "C05.cmp" => {
+            let (x, y) = (Bdd::from_string(&a[0]), Bdd::from_string(&a[1]));
+            let res = catch(|| Bdd::cmp_implies(&x, &y));
+            out.case(key, a, &[s(match res {
+                None => "panic",
+                Some(None) => "none",
+                Some(Some(Ordering::Less)) => "less",
+                Some(Some(Ordering::Equal)) => "equal",
+                Some(Some(Ordering::Greater)) => "greater",
+            })]);
+        }
+        _ => panic!("unknown key {}", key),
+    }
+}
+
+fn flips(n: usize) -> Vec<Option<usize>> {
+    let mut v = vec![None];
+    for i in 0..n { v.push(Some(i)); }
+    v
+}
+fn some_table2(rng: &mut Rng64, c: u32) -> String {
+    match rng.below(3) { 0 => eager_table2(c), 1 => lazy_table2(c), _ => random_table2(rng, c) }
+}
+
+/// every limit from 0 to size+2 for the limited operator, every limit from 0 to count+1 for the dry run
+fn sweep(table: &str, c: u32, l: &str, r: &str, fl: Option<usize>, fr: Option<usize>, fo: Option<usize>, rng: &mut Rng64, out: &mut Out) {
+    let (lb, rb) = (Bdd::from_string(l), Bdd::from_string(r));
+    let unres = catch(|| Bdd::fused_binary_flip_op((&lb, flip_var(fl)), (&rb, flip_var(fr)), flip_var(fo), table_fn(table)));
+    let size = unres.map(|b| b.size()).unwrap_or(1);
+    let full = catch(|| Bdd::check_fused_binary_flip_op(usize::MAX, (&lb, flip_var(fl)), (&rb, flip_var(fr)), flip_var(fo), table_fn(table)));
+    let count = full.flatten().map(|x| x.1).unwrap_or(0);
+    let noflip = fl.is_none() && fr.is_none() && fo.is_none();
+    for limit in 0..=(size + 2) {
+        if noflip && rng.bool() {
+            run("C05.blim", &[s(table), c.to_string(), s(l), s(r), limit.to_string()], out);
+        } else {
+            run("C05.lim", &[s(table), c.to_string(), s(l), s(r), fmt_optvar(fl), fmt_optvar(fr), fmt_optvar(fo), limit.to_string()], out);
+        }
+    }
+    for limit in 0..=(count + 1) {
+        if noflip && rng.bool() {
+            run("C05.bdry", &[s(table), c.to_string(), s(l), s(r), limit.to_string()], out);
+        } else {
+            run("C05.dry", &[s(table), c.to_string(), s(l), s(r), fmt_optvar(fl), fmt_optvar(fr), fmt_optvar(fo), limit.to_string()], out);
+        }
+    }
+}
+
+const CONNS: [u32; 6] = [8, 14, 6, 11, 4, 9];
+
+pub fn gen(tier: Tier, rng: &mut Rng64, out: &mut Out) {
+    let thorough = tier == Tier::Thorough;
+    // --- n <= 2: all pairs, one random connective/table and flip choice each (thorough: three), all limits
+    for n in 0..=2usize {
+        let count = 1u64 << (1u64 << n);
+        let fs = flips(n);
+        for t1 in 0..count { for t2 in 0..count {
+            let l = fmt_bdd(&bdd_of_tt(n, &tt_from_index(n, t1)));
+            let r = fmt_bdd(&bdd_of_tt(n, &tt_from_index(n, t2)));
+            for j in 0..(if thorough { 6 } else { 2 }) {
+                let c = rng.below(16) as u32;
+                let (fl, fr, fo) = if j == 0 { (None, None, None) } else { (*rng.pick(&fs), *rng.pick(&fs), *rng.pick(&fs)) };
+                sweep(&some_table2(rng, c), c, &l, &r, fl, fr, fo, rng, out);
+            }
+            run("C05.cmp", &[l.clone(), r.clone()], out);
+        } }
+    }
+    // --- n = 3: pairs (sampled in quick, all in thorough) x 6 connectives (one table each) x flips, all limits
+    let all3: Vec<String> = (0..256u64).map(|t| fmt_bdd(&bdd_of_tt(3, &tt_from_index(3, t)))).collect();
+    let fs3 = flips(3);
+    let pairs: u64 = if thorough { 65536 } else { 260 };
+    for i in 0..pairs {
+        let (a, b) = if thorough { ((i / 256) as usize, (i % 256) as usize) } else { (rng.below(256) as usize, rng.below(256) as usize) };
+        let (l, r) = (&all3[a], &all3[b]);
+        if thorough {
+            // one connective per pair with all limits; the six connectives on a sample
+            let c = if rng.chance(1, 3) { rng.below(16) as u32 } else { *rng.pick(&CONNS) };
+            let (fl, fr, fo) = if rng.bool() { (None, None, None) } else { (*rng.pick(&fs3), *rng.pick(&fs3), *rng.pick(&fs3)) };
+            sweep(&some_table2(rng, c), c, l, r, fl, fr, fo, rng, out);
+        } else {
+            for c in CONNS {
+                if !rng.chance(1, 3) { continue; }
+                let (fl, fr, fo) = if rng.bool() { (None, None, None) } else { (*rng.pick(&fs3), *rng.pick(&fs3), *rng.pick(&fs3)) };
+                sweep(&some_table2(rng, c), c, l, r, fl, fr, fo, rng, out);
+            }
+        }
+        run("C05.cmp", &[l.clone(), r.clone()], out);
+    }
+    // --- random operands over 4..6 variables (incl. non-canonical operands), all limits
+    let rounds = if thorough { 12000 } else { 220 };
+    for _ in 0..rounds {
+        let n = 4 + rng.below(3) as usize;
+        let mut l = random_bdd(rng, n);
+        let mut r = random_bdd(rng, n);
+        if rng.chance(1, 6) { l = noncanon_variant(rng, &l); }
+        if rng.chance(1, 6) { r = noncanon_variant(rng, &r); }
+        let (ls, rs) = (fmt_bdd(&l), fmt_bdd(&r));
+        let fs = flips(n);
+        let c = if rng.bool() { rng.below(16) as u32 } else { *rng.pick(&CONNS) };
+        let (fl, fr, fo) = if rng.chance(1, 3) { (None, None, None) } else { (*rng.pick(&fs), *rng.pick(&fs), *rng.pick(&fs)) };
+        sweep(&some_table2(rng, c), c, &ls, &rs, fl, fr, fo, rng, out);
+    }
+    // --- cmp_implies: comparable pairs are rare among random pairs, so build them: a, a&b, a|b, !a, equal copies
+    let rounds = if thorough { 20000 } else { 1200 };
+    for _ in 0..rounds {
+        let n = rng.below(7) as usize;
+        let ta = random_tt(rng, n);
+        let tb = random_tt(rng, n);
+        let a = bdd_of_tt(n, &ta);
+        let b = match rng.below(7) {
+            0 => bdd_of_tt(n, &tb),
+            1 => bdd_of_tt(n, &ta.iter().zip(tb.iter()).map(|(x, y)| *x && *y).collect::<Vec<_>>()),
+            2 => bdd_of_tt(n, &ta.iter().zip(tb.iter()).map(|(x, y)| *x || *y).collect::<Vec<_>>()),
+            3 => bdd_of_tt(n, &ta.iter().map(|x| !*x).collect::<Vec<_>>()),
+            4 => noncanon_variant(rng, &a),
+            5 => bdd_of_tt(n, &vec![rng.bool(); 1 << n]),
+            _ => { let m = rng.below(7) as usize; random_bdd(rng, m) } // usually another variable count
+        };
+        let (x, y) = if rng.bool() { (a, b) } else { (b, a) };
+        run("C05.cmp", &[fmt_bdd(&x), fmt_bdd(&y)], out);
+    }
+    // --- panics come before the limit test: out-of-range flips, different variable counts, any limit
+    let rounds = if thorough { 2000 } else { 150 };
+    for _ in 0..rounds {
+        let n = 1 + rng.below(4) as usize;
+        let (ls, rs) = (fmt_bdd(&random_bdd(rng, n)), fmt_bdd(&random_bdd(rng, n)));
+        let bad = [Some(n), Some(n + 3), Some(65535usize)];
+        let pos = rng.below(3);
+        let fs = flips(n);
+        let f = |rng: &mut Rng64, i: u64| if i == pos { *rng.pick(&bad) } else if rng.bool() { None } else { *rng.pick(&fs) };
+        let (fl, fr, fo) = (f(rng, 0), f(rng, 1), f(rng, 2));
+        let c = rng.below(16) as u32;
+        let limit = rng.below(4).to_string();
+        let t = some_table2(rng, c);
+        run("C05.lim", &[t.clone(), c.to_string(), ls.clone(), rs.clone(), fmt_optvar(fl), fmt_optvar(fr), fmt_optvar(fo), limit.clone()], out);
+        run("C05.dry", &[t.clone(), c.to_string(), ls.clone(), rs.clone(), fmt_optvar(fl), fmt_optvar(fr), fmt_optvar(fo), limit.clone()], out);
+        if rng.chance(1, 3) {
+            let other = fmt_bdd(&random_bdd(rng, n + 1));
+            run("C05.blim", &[t.clone(), c.to_string(), ls.clone(), other.clone(), limit.clone()], out);
+            run("C05.bdry", &[t.clone(), c.to_string(), other.clone(), rs.clone(), limit.clone()], out);
+            run("C05.lim", &[t.clone(), c.to_string(), other, rs.clone(), s("-"), s("0"), s("-"), limit.clone()], out);
+        }
+    }
+}
+
 fn main() { harness_main(gen, run) }
